@@ -1,3 +1,5 @@
+//go:build verifshim
+
 // Package c17: json.Tokenizer enumerates exactly the tokens of the document (DESIGN.md §5 C17).
 package c17
 
@@ -5,6 +7,7 @@ import (
 	"bytes"
 	stdjson "encoding/json"
 	"fmt"
+	"github.com/segmentio/encoding/verifshim/hook"
 	"math"
 	"strconv"
 	"strings"
@@ -526,9 +529,118 @@ var histDocs = [][]byte{
 	[]byte(`{"a":[1,{"b":]}`),   // error at depth 3
 	[]byte(`[1,2]]`),            // surplus closer
 	[]byte(`"scalar"`),
+	[]byte(`[1,{"x":[2}]`), // closer of the wrong kind at depth 3
+	[]byte(`{"a":1]`),      // closer of the wrong kind at depth 1
+}
+
+// ---- several tokenizers alive at once
+
+var liveDocs = [][]byte{
+	[]byte(`[1,[2,[3,{"a":[4]}]],5]`),
+	[]byte(`{"k":{"l":[true,{"m":null}]},"n":[[]]}`),
+	[]byte(`[[["x"],"y"],{"z":[0]}]`),
+}
+
+// interleaved: after a history on one tokenizer (which leaves stacks in the pool), two or three tokenizers
+// work through nested documents at the same time, their Next calls interleaved in a fixed pattern: each
+// must see the token stream of its own document (a stack handed to two of them breaks both).
+func interleaved(c *explore.Ctx) {
+	hook.ResetAll()
+	nUses := c.Choose(3)
+	t := json.NewTokenizer(nil)
+	desc := ""
+	for u := 0; u < nUses; u++ {
+		d := histDocs[c.Choose(len(histDocs))]
+		mode := c.Choose(2) // iterate to the end / abandon after 3 tokens
+		t.Reset(d)
+		run(t, d, 3*mode)
+		desc += fmt.Sprintf("%s(mode %d); ", trunc(d), mode)
+	}
+	ending := c.Choose(3) // the first tokenizer is: left as it is / Reset to nothing / itself one of the live ones
+	pattern := c.Choose(4)
+	var live []*json.Tokenizer
+	var docs [][]byte
+	add := func(tk *json.Tokenizer, d []byte) { live = append(live, tk); docs = append(docs, d) }
+	switch ending {
+	case 1:
+		t.Reset(nil)
+	case 2:
+		t.Reset(liveDocs[2])
+		add(t, liveDocs[2])
+	}
+	add(json.NewTokenizer(liveDocs[0]), liveDocs[0])
+	add(json.NewTokenizer(liveDocs[1]), liveDocs[1])
+	got := make([][]seen, len(live))
+	doneT := make([]bool, len(live))
+	step := func(i int) {
+		if doneT[i] {
+			return
+		}
+		tk := live[i]
+		if !tk.Next() {
+			doneT[i] = true
+			return
+		}
+		sn := seen{raw: string(tk.Value), delim: tk.Delim, depth: tk.Depth, index: tk.Index, isKey: tk.IsKey, kind: tk.Kind()}
+		sn.off = len(docs[i]) - tk.Remaining() - len(tk.Value)
+		if tk.Delim == 0 {
+			sn.str, sn.i64, sn.u64, sn.f64, sn.b = string(tk.String()), tk.Int(), tk.Uint(), tk.Float(), tk.Bool()
+		}
+		got[i] = append(got[i], sn)
+	}
+	pv, ps := explore.Catch(func() {
+		for round := 0; round < 200; round++ {
+			switch pattern {
+			case 0: // one token each in turn
+				for i := range live {
+					step(i)
+				}
+			case 1: // two tokens of the first for each one of the others
+				step(0)
+				step(0)
+				for i := 1; i < len(live); i++ {
+					step(i)
+				}
+			case 2: // the last one runs ahead by three
+				for k := 0; k < 3; k++ {
+					step(len(live) - 1)
+				}
+				for i := 0; i < len(live)-1; i++ {
+					step(i)
+				}
+			case 3: // the first one completes before the others start
+				for !doneT[0] {
+					step(0)
+				}
+				for i := 1; i < len(live); i++ {
+					step(i)
+				}
+			}
+		}
+	})
+	if pv != nil {
+		c.Fail("interleaved:panic:"+ps, "tokenizers working at the same time panicked after %s: %v", desc, pv)
+	} else {
+		for i, tk := range live {
+			if tk.Err != nil {
+				c.Fail("interleaved:error", "tokenizer %d of %d working at the same time fails on the valid document %s after the history %s: %v", i, len(live), docs[i], desc, tk.Err)
+				continue
+			}
+			compare(c, docs[i], model(docs[i]), got[i], "interleaved")
+		}
+	}
+	for _, v := range hook.TakeViolations() {
+		c.Fail(v[0]+":tokenizer", "%s (history %s, ending %d)", v[1], desc, ending)
+	}
+	c.NontrivialStr("live", desc, fmt.Sprint(ending, pattern))
+	c.Outcome(fmt.Sprintf("uses=%d ending=%d", nUses, ending))
+	if c.WantSample() || c.Failed() {
+		c.Case(map[string]any{"history": desc, "ending": []string{"left as it is", "Reset(nil)", "reused as one of the live tokenizers"}[ending], "interleaving": pattern, "live_documents": len(live)})
+	}
 }
 
 func histories(c *explore.Ctx) {
+	hook.ResetAll()
 	nUses := 1 + c.Choose(3)
 	t := json.NewTokenizer(nil)
 	others := []*json.Tokenizer{}
@@ -570,6 +682,9 @@ func histories(c *explore.Ctx) {
 		compare(c, final, model(final), fresh, "fresh-after-history")
 	}
 	_ = others
+	for _, v := range hook.TakeViolations() {
+		c.Fail(v[0]+":tokenizer", "%s (history %s)", v[1], desc)
+	}
 	c.NontrivialStr("hist", desc)
 	c.Outcome(fmt.Sprintf("uses=%d", nUses))
 	if c.WantSample() || c.Failed() {
@@ -590,13 +705,14 @@ func Spec() *explore.Spec {
 			}, Doc: "every document of a grammar with nesting depth <= 2 and <= 2 members per container (thorough: 3 members), 18 scalars, empty containers inside non-empty ones x {no white space; each of 6 white space forms (space, tab, LF, CR, CRLF, a mix) in every gap and around the document}: token-by-token equality with a reference model (validated against encoding/json's Token stream on every document): Value, Delim, Depth/Index/IsKey of scalars and opening delimiters, in-place Values, Kind, String/Int/Uint/Float/Bool, RawValue predicates, Unquote/AppendUnquote, concatenation == Compact"},
 			{Name: "deep-nesting", ShardDepth: 2, Body: deepNesting, Doc: "valid documents nested 1 .. 10000 deep (21 depths around the powers of two and the limit encoding/json accepts) x {arrays, objects, alternating, mixed with a sibling before each nested container} x 3 innermost values: the token stream equals the model's"},
 			{Name: "arbitrary", ShardDepth: 2, Body: arbitrary, Doc: "all byte strings of length 2..5 (6) over a 24-byte class alphabet: termination, no panic, error stickiness, Reset after error; valid ones checked against the model"},
-			{Name: "histories", ShardDepth: 2, Body: histories, Doc: "all sequences of up to 3 uses of one Tokenizer via Reset over 7 documents x {iterate to the end, abandon after 3 or 7 tokens, abandon while another tokenizer holds a pooled stack} followed by a full tokenisation compared with the model (reused and fresh tokenizer)"},
+			{Name: "interleaved", ShardDepth: 2, Body: interleaved, Doc: "every history of 0-2 uses of one Tokenizer over 9 documents (complete, truncated, failing at depth, closers of the wrong kind, surplus closers) x {to the end, abandoned} x {left, Reset(nil), reused} followed by two or three tokenizers working through nested documents at the same time in 4 interleavings of their Next calls: each sees exactly its own document's tokens; the pool monitor (deterministic pool, sync shim) reports a stack put back twice or handed to two holders"},
+			{Name: "histories", ShardDepth: 2, Body: histories, Doc: "all sequences of up to 3 uses of one Tokenizer via Reset over 9 documents x {iterate to the end, abandon after 3 or 7 tokens, abandon while another tokenizer holds a pooled stack} followed by a full tokenisation compared with the model (reused and fresh tokenizer)"},
 		},
 		Rule: "every document / byte string / history in the bounds; distinct non-trivial = distinct documents and histories",
 		Assumptions: []string{
 			"the token model is a 60-line recursive walk of valid documents; its scalar/delimiter stream is checked against encoding/json.Decoder.Token on every document explored (model_validated counter)",
 			"Depth, Index and IsKey are only specified for scalars and opening delimiters",
-			"sync.Pool behaviour is the runtime's (the pool normally returns the stack just released on the same goroutine)",
+			"the stack pool is the deterministic LIFO pool of the sync shim (go build -overlay): the next Get returns the stack just Put, nothing is dropped, and a stack Put twice or handed to two holders is reported by the pool monitor",
 		},
 	}
 }
